@@ -2,16 +2,20 @@
 C09 — "Results are a function of workspace and configuration, not of scheduling".
 
 The order-sensitive step of the analysis is the merge of same-named globals of several files into the
-workspace table (files are visited in Go map-iteration order).  Model: Model/Merge.lean.
-Proved here, for EVERY visiting order:
+workspace table.  Model: Model/Merge.lean.  Proved here:
  * `dominant_wins`: if one candidate dominates all others (no larger function level and scope level,
    strictly smaller line; e.g. the usual case of top-level definitions on different lines), every order
-   of the files yields that candidate — the result is a function of the workspace;
- * `order_dependent` / `same_line_order_dependent` (finding K1): without a dominating candidate the
-   winner depends on the visiting order: two top-level definitions on the SAME line number of two
-   files, or a nested definition on an earlier line against a top-level one on a later line.
+   of the files yields that candidate;
+ * `visit_order_matters` / `same_line_visit_order_matters`: without a dominating candidate the winner
+   depends on the visiting order (the former finding K1: the files were visited in map-iteration order);
+ * `merge_visits_sorted` (regenerated facts): the merge of globals and the merge of annotation types now
+   collect the file names, sort them and visit the files in that order;
+ * `sorted_visit_function_of_workspace`: whatever order the candidates are handed over in (map iteration,
+   directory listing, scheduling), the sorted visit and its winner are the same — the result is a function
+   of the workspace.
 The harness repeats the real server on identical workspaces (GOMAXPROCS 1 / 2 / 16, shuffled file
-creation order; map iteration is randomised by the Go runtime) and compares normalised answers.
+creation order; map iteration is randomised by the Go runtime), compares normalised answers, and checks
+go-to-definition of every multiply defined global against `winnerSorted`.
 -/
 import LuaHelper.Model.Merge
 import LuaHelper.Gen.Merge
@@ -29,6 +33,17 @@ theorem merge_code_shape :
        "oneVar.Loc.StartLine <= varInfo.Loc.StartLine => return false"] ∧
     Gen.findScanBackward = true := by decide
 #print axioms merge_code_shape
+
+/-- the two merges over files (globals with the members other files add to them; annotation types) range
+    over the file map only to collect the names, sort them, and visit the files in sorted order -/
+theorem merge_visits_sorted :
+    Gen.globalVisits =
+      ["range third.AllIncludeFile { fileList = append(fileList, strFile) }", "sort.Strings(fileList)",
+       "range fileList", "range fileList"] ∧
+    Gen.typeVisits =
+      ["range a.fileStructMap { fileList = append(fileList, strFile) }", "sort.Strings(fileList)", "range fileList"] := by
+  decide
+#print axioms merge_visits_sorted
 
 theorem run_append (a b : List Cand) : run (a ++ b) = b.foldl addCand (run a) := by
   unfold run; rw [List.foldl_append]
@@ -132,17 +147,56 @@ theorem dominant_wins_any_order (order : List Cand) (m : Cand) (hm : m ∈ order
 example : winner [⟨"b.lua", 0, 0, 7⟩, ⟨"a.lua", 0, 0, 3⟩, ⟨"c.lua", 0, 0, 9⟩] = some ⟨"a.lua", 0, 0, 3⟩ ∧
           winner [⟨"c.lua", 0, 0, 9⟩, ⟨"b.lua", 0, 0, 7⟩, ⟨"a.lua", 0, 0, 3⟩] = some ⟨"a.lua", 0, 0, 3⟩ := by decide
 
-/-- K1: a nested definition on line 5 (scope level 1) and a top-level definition on line 9: neither
-    dominates; whichever file is visited first wins -/
-theorem order_dependent :
+/-- why the visit has to be sorted (former finding K1): a nested definition on line 5 (scope level 1) and
+    a top-level definition on line 9: neither dominates; whichever file is visited first wins -/
+theorem visit_order_matters :
     winner [⟨"a.lua", 0, 1, 5⟩, ⟨"b.lua", 0, 0, 9⟩] = some ⟨"a.lua", 0, 1, 5⟩ ∧
     winner [⟨"b.lua", 0, 0, 9⟩, ⟨"a.lua", 0, 1, 5⟩] = some ⟨"b.lua", 0, 0, 9⟩ := by decide
-#print axioms order_dependent
+#print axioms visit_order_matters
 
-/-- K1: the same global defined at top level on the same line number of two files -/
-theorem same_line_order_dependent :
+/-- the same global defined at top level on the same line number of two files -/
+theorem same_line_visit_order_matters :
     winner [⟨"a.lua", 0, 0, 1⟩, ⟨"b.lua", 0, 0, 1⟩] = some ⟨"a.lua", 0, 0, 1⟩ ∧
     winner [⟨"b.lua", 0, 0, 1⟩, ⟨"a.lua", 0, 0, 1⟩] = some ⟨"b.lua", 0, 0, 1⟩ := by decide
-#print axioms same_line_order_dependent
+#print axioms same_line_visit_order_matters
+
+theorem byFile_trans (a b c : Cand) : byFile a b = true → byFile b c = true → byFile a c = true := by
+  simp only [byFile, decide_eq_true_eq]
+  exact String.le_trans
+theorem byFile_total (a b : Cand) : (byFile a b || byFile b a) = true := by
+  simp only [byFile, Bool.or_eq_true, decide_eq_true_eq]
+  exact String.le_total a.file b.file
+
+/-- the sorted visit does not depend on the order in which the candidates are handed over (one candidate
+    per file: a file's table of globals has one entry per name) -/
+theorem sortedVisit_perm (l1 l2 : List Cand) (hp : l1.Perm l2)
+    (hfile : ∀ a ∈ l1, ∀ b ∈ l1, a.file = b.file → a = b) : sortedVisit l1 = sortedVisit l2 := by
+  unfold sortedVisit
+  apply List.Perm.eq_of_pairwise (le := fun a b => byFile a b = true)
+  · intro a b ha hb hab hba
+    have ha1 : a ∈ l1 := (List.mergeSort_perm l1 byFile).subset ha
+    have hb1 : b ∈ l1 := hp.symm.subset ((List.mergeSort_perm l2 byFile).subset hb)
+    apply hfile a ha1 b hb1
+    simp only [byFile, decide_eq_true_eq] at hab hba
+    exact String.le_antisymm hab hba
+  · exact List.pairwise_mergeSort byFile_trans byFile_total l1
+  · exact List.pairwise_mergeSort byFile_trans byFile_total l2
+  · exact ((List.mergeSort_perm l1 byFile).trans hp).trans (List.mergeSort_perm l2 byFile).symm
+#print axioms sortedVisit_perm
+
+/-- the definition a multiply defined global is linked to is a function of the workspace: every order in
+    which map iteration, directory listing or scheduling present the files gives the same winner — with or
+    without a dominating definition -/
+theorem sorted_visit_function_of_workspace (l1 l2 : List Cand) (hp : l1.Perm l2)
+    (hfile : ∀ a ∈ l1, ∀ b ∈ l1, a.file = b.file → a = b) : winnerSorted l1 = winnerSorted l2 := by
+  unfold winnerSorted
+  rw [sortedVisit_perm l1 l2 hp hfile]
+#print axioms sorted_visit_function_of_workspace
+
+/-- premises satisfiable, and the two former K1 situations now have one answer -/
+example : winnerSorted [⟨"a.lua", 0, 1, 5⟩, ⟨"b.lua", 0, 0, 9⟩] = some ⟨"a.lua", 0, 1, 5⟩ ∧
+          winnerSorted [⟨"b.lua", 0, 0, 9⟩, ⟨"a.lua", 0, 1, 5⟩] = some ⟨"a.lua", 0, 1, 5⟩ ∧
+          winnerSorted [⟨"b.lua", 0, 0, 1⟩, ⟨"a.lua", 0, 0, 1⟩] = some ⟨"a.lua", 0, 0, 1⟩ := by
+  simp [winnerSorted, sortedVisit, List.mergeSort, byFile, winner, run, addCand, accept, blocks]
 
 end LuaHelper.C09
